@@ -73,10 +73,12 @@ def gen_program(r, maxsteps=9, maxh=6, read_bias=0.2, assign_bias=0.2):
     lens = rnd_lens(r, 5, 5)
     k = 10
     rows = []
+    flt = r.random() < 0.25                      # a float64 array: small dyadic values and now and then +inf
     for l in lens:
-        rows.append(list(range(k, k + l)))
+        rows.append([([2 * (k + j) + 1, 2] if not (flt and r.random() < 0.08) else [1, 0]) if flt else k + j for j in range(l)])
         k += l
-    steps = [["new", ["i8", rows]]]
+    steps = [["new", ["f8" if flt else "i8", rows]]]
+    V = (lambda x: [x, 1]) if flt else (lambda x: x)
     opts = {"via0": r.choice(RVIAS), "spelling": "plain"}
     objs = []
     rec = []
@@ -91,12 +93,15 @@ def gen_program(r, maxsteps=9, maxh=6, read_bias=0.2, assign_bias=0.2):
             break
         h = r.choice(live)
         hl = _lens(obs[h - 1])
+        hdt = obs[h - 1][0]                           # values are written in the target's own dtype
+        V = (lambda x: [x, 1]) if hdt[0] == "f" else (lambda x: x % 2) if hdt == "b1" else (lambda x: x)
+        flt = hdt[0] == "f"
         c = r.random()
         if c < read_bias:
             st = ["read", h, r.choice(READ_KINDS)]
         elif c < read_bias + assign_bias and r.random() < 0.12:
             val += 1
-            st = ["fill", h, val]
+            st = ["fill", h, V(val)]
         elif c < read_bias + assign_bias:
             rs, cs = rnd_sel(r, hl)
             if not norepeat_rows(rs, len(hl)):
@@ -105,13 +110,15 @@ def gen_program(r, maxsteps=9, maxh=6, read_bias=0.2, assign_bias=0.2):
             vk = r.choice(["scalar", "scalar", "ragged", "col"])
             val += 1
             if vk == "ragged" and shp is not None:
-                v = ["ragged", [[val * 10 + j for j in range(l)] for l in shp]]
+                v = ["ragged", [[V(val * 10 + j) for j in range(l)] for l in shp]]
                 if r.random() < 0.15:
-                    v = ["ragged", v[1] + [[1]]]                  # wrong shape: refused
+                    v = ["ragged", v[1] + [[V(1)]]]                  # wrong shape: refused
             elif vk == "col" and shp:
-                v = ["col", [val * 10 + i for i in range(len(shp))]]
+                v = ["col", [V(val * 10 + i) for i in range(len(shp))]]
+                if flt and r.random() < 0.4:
+                    v[1][r.randrange(len(shp))] = [1, 0]
             else:
-                v = ["scalar", val]
+                v = ["scalar", V(val)]
             st = ["assign", h, rs, cs, v]
         elif len(objs) >= maxh:
             rs, cs = rnd_sel(r, hl)
@@ -120,8 +127,16 @@ def gen_program(r, maxsteps=9, maxh=6, read_bias=0.2, assign_bias=0.2):
             rs, cs = rnd_sel(r, hl)
             st = ["select", h, rs, cs]
         elif c < 0.91:
-            f = r.choice(["add_py", "add_self", "mul_py", "neg", "sub_h"])
-            if f == "add_py":
+            f = r.choice(["add_py", "add_self", "mul_py", "neg", "sub_h", "col", "col"])
+            if f == "col" and not hl:
+                f = "neg"
+            if f == "col":
+                col = [V(r.randint(-3, 9)) for _ in hl]
+                if flt and r.random() < 0.5:
+                    col[r.randrange(len(col))] = [1, 0]
+                opd = ["col", hdt if hdt != "b1" else "i8", col if hdt != "b1" else [r.randint(0, 3) for _ in hl]]
+                st = ["ufunc", r.choice(["add", "maximum", "less"]), ["h", h], opd] if r.random() < 0.5 else ["ufunc", r.choice(["add", "subtract"]), opd, ["h", h]]
+            elif f == "add_py":
                 st = ["ufunc", "add", ["h", h], ["py", "pyint", r.randint(1, 3)]]
             elif f == "mul_py":
                 st = ["ufunc", "multiply", ["py", "pyint", 2], ["h", h]]
@@ -133,7 +148,7 @@ def gen_program(r, maxsteps=9, maxh=6, read_bias=0.2, assign_bias=0.2):
                 g = r.choice(live)
                 st = ["ufunc", "subtract", ["h", h], ["h", g]]
         else:
-            name = r.choice(["cumsum", "sort", "diff", "concat", "concat", "astype"])   # no value-dependent shapes (unique): see RaggedHeap.tla
+            name = r.choice(["cumsum", "sort", "diff", "concat", "concat", "astype", "sum", "max", "argmax", "argmin", "mean", "min"])   # no value-dependent shapes (unique): see RaggedHeap.tla
             if name == "concat":
                 g = r.choice(live)
                 ax = r.choice([0, 0, -1])
@@ -142,6 +157,8 @@ def gen_program(r, maxsteps=9, maxh=6, read_bias=0.2, assign_bias=0.2):
                 st = ["func", "concat", h, [g, ax]]
             elif name == "diff":
                 st = ["func", "diff", h, r.randint(0, 2)]
+            elif name == "cumsum" and flt:
+                st = ["func", "sort", h, 0]          # cumsum is integer-only
             else:
                 st = ["func", name, h, 0]
         res = exec_heap.step(objs, st, opts)
